@@ -74,3 +74,9 @@ chk("C10", "model_checking",
     "Scheduling points exist only at hooked accesses of repository package-level variables and shim sync operations; interleavings inside dependencies are not explored (auxiliary -race pass only). The same schedule is replayed twice before a violation is believed.",
     "stateless exploration of thread interleavings with iterative preemption bounding under a controlled scheduler, on the instrumented implementation",
     "DESIGN.md §3 C10")
+
+chk("C06", "model_checking",
+    "The repository is rebuilt with every `range` over a map rewritten to iterate in an explorer-dictated order (type-aware instrumenter, site list in the evidence); for a family of profiles with sibling quantified constraints (the shape whose translation depends on key order), every order of every YAML key map is enumerated and every other map-iteration site is deviated one at a time (thorough: pairs); all executions must give one report byte string and one generated-code byte string. Goroutine interleaving is covered by C10 with the same equality oracle; an uninstrumented 30x repetition pass cross-checks that no map order escapes the seam.",
+    "Map iteration inside dependencies is not behind the seam (cross-checked by repetition only). Maps with more than 4 keys are permuted by rotations/reversals (2n orders), not n! orders.",
+    "exhaustive enumeration of controlled nondeterminism (map iteration orders as choice points, deviation-bounded DFS) on the instrumented implementation",
+    "DESIGN.md §3 C06")
